@@ -999,7 +999,7 @@ class SyncObj(object):
                     if staleSnapshotIdx is None:
                         self.__sendNextNodeIdx(node, success=True)
                         lastMatchedIdx = self.__getCurrentLogIndex()
-                    else:
+                    elif staleSnapshotIdx is not False:
                         # Everything in the snapshot was already applied here, nothing was loaded
                         self.__sendNextNodeIdx(node, nextNodeIdx=staleSnapshotIdx + 1, success=True)
                         lastMatchedIdx = staleSnapshotIdx
@@ -1447,7 +1447,6 @@ class SyncObj(object):
                         (sameIdxEntries and sameIdxEntries[0][2] == data[1][2]):
                     self.__serializer.acceptTransmission(False)
                     return data[1][1]
-                self.__serializer.acceptTransmission(True)
             if data[0] is not None:
                 if self.__consumers:
                     selfData = data[0][0]
@@ -1455,6 +1454,20 @@ class SyncObj(object):
                 else:
                     selfData = data[0]
                     consumersData = []
+
+                if selfData.get('_SyncObj__enabledCodeVersion', 0) > self.__selfCodeVersion:
+                    # The snapshot was taken after a code version was enabled that this node's
+                    # code does not have: like for the log entry that enables it, the node stops
+                    # here instead of going on with methods it cannot execute.
+                    logger.error('snapshot requires code version %d, self version is %d' %
+                                 (selfData.get('_SyncObj__enabledCodeVersion', 0), self.__selfCodeVersion))
+                    self.__serializer.acceptTransmission(False)
+                    return False
+
+            if clearJournal:
+                self.__serializer.acceptTransmission(True)
+
+            if data[0] is not None:
 
                 for k, v in iteritems(selfData):
                     self.__dict__[k] = v
